@@ -27,7 +27,7 @@ ADDED = {
     "C08": "hand-overs through bulk_add as race control does; dependent timings; stored percentile key set; non-ASCII races read back under LC_ALL=C; query leg on two real EsMetricsStores (writer without refresh, reader) over a fake Elasticsearch that evaluates the searches and makes documents searchable on refresh only.",
     "C09": "prep leg (TrackPrep.tla); unsuccessful results and retried connection errors as request faults; lenient tasks next to strict ones; siblings that go on after a failure.",
     "C10": "target-index rules; exists_set_param macro; special characters; parameters used only in index bodies/templates; imported macros and single-quoted collect; base-url per document set; verbatim text of operation parameters inside included parts (IncludedTextVerbatim).",
-    "C11": "multi-challenge tracks; emptied parallels; case-sensitive and custom operation-type filters.",
+    "C11": "multi-challenge tracks; emptied parallels; case-sensitive and custom operation-type filters; a RACE leg: complete simulated races (real BenchmarkActor/DriverActor/Workers, TLC-simulated behaviours of RaceDriver.tla, TLC trace validation) on tracks that are what the real filter leaves of a larger track.",
     "C12": "multi-lifecycle histories incl. restart after a failed start; buffering metrics store (ShutdownMetricsStored); race unknown to the host's race store; exhaustive stop-outcome family under the real ProcessLauncher.stop (incl. gone at SIGKILL).",
     "C13": "several nodes from one Car object; docker provisioning path; locale leg (child interpreter under LC_ALL=C); a data path that cannot be deleted at clean-up.",
     "C14": "CRLF corpora; corrupt-payload and over-expanding archives; short bodies; stalled connections; sub-second table age; final 3xx answers; signatures that tell who left a trusted file.",
@@ -207,8 +207,8 @@ check(
     "allocation of the filtered schedule). Every TLC input becomes a real Track and goes through the real processor configured via config.Config with filters parsed by the real code, then the "
     "real Allocator and Driver.update_progress_message; seeded random larger schedules are added; all recorded results are validated by TLC.",
     "Bounds quick: <= 2 elements, parallels <= 2 tasks, 3 task kinds, 6-filter alphabet; thorough <= 3 elements, <= 3 tasks, 10 filters. 'Unchanged' is observed on name, type, tags, clients, "
-    "completed-by flags and a fingerprint of the remaining attributes. No full race is run in this check.",
-    "TLA+ transcription + TLC exhaustive enumeration; every state replayed on the implementation; TLC validation of recorded results",
+    "completed-by flags and a fingerprint of the remaining attributes. Race leg: 13 (thorough ~150) generated schedules of <= 2 elements / <= 3 clients, each obtained by the real filter from a larger track, raced under SimActorSystem (trusted base as C01).",
+    "TLA+ transcription + TLC exhaustive enumeration; every state replayed on the implementation; TLC simulation of RaceDriver.tla replayed as races on filtered tracks; TLC validation of recorded results and race traces",
     spec="TaskFilter",
 )
 
@@ -342,7 +342,7 @@ def build():
         },
         "engines": [
             {"name": "tlc", "path": "harness/tlc.py", "serves_properties": sorted(CHECKS), "kind_free_text": "TLC 1.8 model checker on specs/*/*.tla: exhaustive checking, simulation, batch trace validation"},
-            {"name": "simactor", "path": "harness/simactor.py", "serves_properties": [p for p in ("C01", "C07", "C09", "C12") if p in CHECKS], "kind_free_text": "runs the real Thespian actor classes single-threaded under a scheduler the harness controls (virtual time, scripted fake Elasticsearch)"},
+            {"name": "simactor", "path": "harness/simactor.py", "serves_properties": [p for p in ("C01", "C07", "C09", "C11", "C12") if p in CHECKS], "kind_free_text": "runs the real Thespian actor classes single-threaded under a scheduler the harness controls (virtual time, scripted fake Elasticsearch)"},
         ],
         "checks": checks,
         "notes": "All checks: ./check <id> [--tier quick|thorough]. known findings / fixed defects: /verif/known_findings.json. Design: /verif/DESIGN.md.",
